@@ -2,6 +2,7 @@ import SoundeventModel.Ops.Common
 import SoundeventModel.Aoef.Closure
 import SoundeventModel.Aoef.Adapter
 import SoundeventModel.Aoef.OpSave
+import SoundeventModel.Aoef.RefTable
 namespace SE.Ops.C02
 open Lean SE SE.Aoef SE.Paths
 
@@ -44,7 +45,21 @@ def handle (op : String) (a : Json) : Except String Json := do
       ("problems", toJson (problems d)),
       ("closed", boolJ (closed d)), ("unique", boolJ (unique d)),
       ("parent_first", boolJ (parentFirst d)),
-      ("defs", kindTable (fun k => if k = .tag then tagDefKeys d else defs d k))]
+      ("defs", kindTable (fun k => if k = .tag then tagDefKeys d else defs d k)),
+      -- what every row of the reference table finds in this document, and the raw identifiers per list
+      ("rows", Json.mkObj (refRows.map fun r => (s!"{r.owner}/{r.path}", toJson (r.get d)))),
+      ("ids", kindTable (defs d)),
+      ("tag_contents", toJson ((lst d.tags).map fun t => [t.key, t.value]))]
+  | "ref_table" =>
+    -- the reference table itself (owner, path, id type, kind of the target list), the definition lists and the
+    -- keys of the eight schemas, in the model's own order (the harness permutes what it extracted accordingly)
+    return Json.mkObj [
+      ("rows", arrJ (refRows.map fun r => Json.mkObj [
+        ("owner", Json.str r.owner), ("path", Json.str r.path), ("idty", Json.str r.idty),
+        ("kind", Json.str r.kind.name)])),
+      ("kinds", arrJ (Kind.all.map fun k => Json.mkObj [("name", Json.str k.name), ("idty", Json.str k.idty)])),
+      ("keys", Json.mkObj (["recording_set", "dataset", "annotation_set", "annotation_project", "evaluation_set",
+                            "prediction_set", "model_run", "evaluation"].map fun t => (t, toJson (Doc.keys t))))]
   | "reach" =>
     -- keys of the distinct objects reachable from a collection, per kind
     let c : Collection ← fromJson? (← fld a "collection")
